@@ -29,3 +29,15 @@ Lemma lek_rule_is_code (last : item) limit scanned size cnt :
   (match last with [] => false | _ => if Nat.eqb limit 0 then false else Nat.leb scanned size && Nat.leb limit cnt end) =
   go_shouldReturnNextKey last cnt scanned limit size.
 Proof. unfold go_shouldReturnNextKey. destruct last; cbn [List.length Nat.eqb orb]; [reflexivity|]. destruct (Nat.eqb limit 0); reflexivity. Qed.
+
+(* ---------- the lexer's character classes (interpreter/language/lexer.go) ---------- *)
+From Minidyn Require Import Model.Token Gen.Tables Model.Lexer.
+
+Lemma is_letter_is_code c : go_isLetter c = is_letter c.
+Proof. reflexivity. Qed.
+
+Lemma is_ident_char_is_code c : go_isIdentifierLetter c = is_ident_char c.
+Proof. reflexivity. Qed.
+
+Lemma is_lex_space_is_code c : go_isWhitespace c = is_lex_space c.
+Proof. reflexivity. Qed.
